@@ -188,3 +188,18 @@ Proof.
   - apply Z.eqb_eq in Q. apply Inj in Q. contradiction.
   - inversion E2; subst. simpl. discriminate.
 Qed.
+
+(* the raw comptime values of the replayer (gen.POLYC_ARGS: 20 = 0.0, 21 = -0.0, every other id its own value)
+   and their classes under the comparison poly_args_matches uses: Lua's == merges 0.0 and -0.0, a comparison
+   that also looks at the sign of zero does not *)
+Definition raw_cls (signed_zero : bool) (r : Z) : Z := if signed_zero then r else if r =? 21 then 20 else r.
+Lemma raw_cls_spec signed_zero :
+  match signed_zero return Prop with
+  | true => distinct_raw_values_distinct_specialisations (raw_cls signed_zero)
+  | false => ~ distinct_raw_values_distinct_specialisations (raw_cls signed_zero)
+  end.
+Proof.
+  destruct signed_zero.
+  - apply distinct_raw_values_lemma. intros r r' E. exact E.
+  - apply lua_equal_values_share_refuted_lemma. exists 20, 21. split; [discriminate|reflexivity].
+Qed.
